@@ -276,3 +276,60 @@ fn c13_progress_filtertime_backwards() {
     assert!(b.0.as_ref().unwrap().filter_time == ft);
     kani::cover!(true, "returned");
 }
+
+/// Over-approximation of `InnerFilter::absorb_measurement` (the Kalman update, ~50 f64 multiplications):
+/// arbitrary new non-NaN state. The update does not issue clock commands.
+fn absorb_measurement_havoc(f: &mut InnerFilter, _v: Vector<1>, t: Matrix<1, 3>, _n: Matrix<1, 1>) {
+    // a peer-delay measurement (H = [0 0 1]) only moves the delay component: the cross-covariances between
+    // delay and (offset, frequency) are exactly zero in a filter that never absorbed an offset measurement
+    assert!(t.entry(0, 0) == 0.0 && t.entry(0, 1) == 0.0, "harness: only peer-delay measurements expected here");
+    let d = any_finite();
+    kani::assume(d.abs() <= 1.0e9);
+    f.state = Vector::new_vector([f.state.ventry(0), f.state.ventry(1), d]);
+}
+
+/// progress of a filter whose offset and frequency components are zero: they stay zero
+fn progress_filtertime_keep_zero(f: &mut InnerFilter, time: Time, _wander: f64, _config: &KalmanConfiguration) {
+    if time < f.filter_time {
+        return;
+    }
+    f.filter_time = time;
+}
+
+// @harness c08_kalman_peer_delay_only_never_steers
+// @props C08 C13:thorough C03:thorough
+// @tier quick
+// @stubbing yes
+// @timeout 1800
+// @mem 10
+// @functions KalmanFilter::measurement, KalmanFilter::steer, KalmanFilter::change_frequency, KalmanFilter::update_wander, MeasurementErrorEstimator::absorb_measurement, BaseFilter::absorb_peer_delay
+// @bounds the servo of a port that is not slave: cur_frequency None (freshly created by set_forced_port_state / Port::new), estimator absent or with zero offset / frequency components and an arbitrary delay estimate (|d| <= 10^9 s), one measurement that carries only a peer delay (the only kind a non-slave port produces), |peer delay| <= 10^9 s
+// @assume Inv_K: a port that is not slave holds a filter whose cur_frequency is None (established by the filter swap in set_forced_port_state, counted in c12_announce_receipt_timer / c05_bmca_two_ports; preserved by this harness)
+// @assume InnerFilter::progress_filtertime and InnerFilter::absorb_measurement replaced by abstractions that keep the zero offset / frequency components (exact for H = [0 0 1] with zero cross-covariances) and give the delay component an arbitrary bounded value
+#[kani::proof]
+#[kani::unwind(5)]
+#[kani::stub(InnerFilter::progress_filtertime, progress_filtertime_keep_zero)]
+#[kani::stub(InnerFilter::absorb_measurement, absorb_measurement_havoc)]
+fn c08_kalman_peer_delay_only_never_steers() {
+    let config = KalmanConfiguration::default();
+    let ft = crate::verif_root::gen::any_time();
+    let has_inner: bool = kani::any();
+    // estimator of a port that never was slave since the filter was created: offset and frequency components are
+    // exactly zero (nothing but peer delays was absorbed), the delay component is arbitrary
+    let mut inner = any_inner(ft);
+    let d0 = any_finite();
+    kani::assume(d0.abs() <= 1.0e9);
+    inner.state = Vector::new_vector([0.0, 0.0, d0]);
+    let mut f = mk(config, if has_inner { Some(inner) } else { None }, None);
+    let ev = crate::verif_root::gen::any_time();
+    let pd = crate::verif_root::gen::any_duration_bits(96);
+    kani::assume(pd.abs() <= Duration::from_secs(1_000_000_000));
+    let m = Measurement { event_time: ev, offset: None, delay: None, peer_delay: Some(pd), raw_sync_offset: None, raw_delay_offset: None };
+    let mut clock = CmdClock::any(ev);
+    let _u = f.measurement(m, &mut clock);
+    assert!(clock.n_freq == 0 && clock.n_step == 0, "C08: the servo of a port that is not slave adjusted the clock");
+    assert!(f.cur_frequency.is_none(), "Inv_K not preserved: a peer-delay-only measurement initialised the frequency book-keeping");
+    // (a step is possible only if the estimator offset exceeds the threshold, which a filter that never saw an offset measurement does not reach: offset state stays 0)
+    kani::cover!(has_inner, "estimator already running");
+    kani::cover!(!has_inner, "first measurement");
+}
